@@ -17,7 +17,8 @@ RULE = (
     "Random schema descriptions (all declaration kinds) are split into a tree of module files: a "
     "random dependency-closed subset of the declarations moves into a module imported where the "
     "first moved declaration stood; recursively to depth 3; module paths are plain or dotted "
-    "(sub-directories, resolved relative to the importing file).  Oracle: get_fcp(root).to_dict() has "
+    "(sub-directories, resolved relative to the importing file; several modules may share a file name "
+    "in different directories).  Oracle: get_fcp(root).to_dict() has "
     "the same structs, enums, bindings (incl. default ones), services and devices as the single-file "
     "text (compared per kind as multisets; ordered equality with the inlined order is recorded).  "
     "Fault injection into one module of the tree: syntax error, EOF, wrong version, unknown type, "
@@ -103,7 +104,14 @@ def build_tree(r, decls, relpath, depth, counter):
     first = min(idx)
     moved = [decls[i] for i in sorted(idx)]
     counter[0] += 1
-    segs = ["m%d" % counter[0]] if r.random() < 0.5 else ["d%d" % counter[0]] * r.choice([1, 2]) + ["m%d" % counter[0]]
+    c = r.random()
+    if c < 0.45:
+        segs = ["m%d" % counter[0]]
+    elif c < 0.8:
+        segs = ["d%d" % counter[0]] * r.choice([1, 2]) + ["m%d" % counter[0]]
+    else:
+        # modules in different directories that share a file name (can/types.fcp, lin/types.fcp)
+        segs = ["d%d" % counter[0], "types"]
     base = os.path.dirname(relpath)
     child_rel = os.path.join(base, *segs[:-1], segs[-1] + ".fcp")
     child = build_tree(r, moved, child_rel, depth + 1, counter)
@@ -180,6 +188,11 @@ def inject(run, i, tree, root, fault):
     r = run.rng("fault", i, fault)
     mods = [f for f in tree.files() if f.relpath != "main.fcp"]
     if not mods:
+        return
+    names = [os.path.basename(f.relpath) for f in tree.files()]
+    if len(set(names)) != len(names):
+        # the logger registers sources by file name: with two modules of the same name the quoted
+        # source of a diagnostic is ambiguous - fault injection is limited to unambiguous trees
         return
     victim = r.choice(mods)
     files = write_tree(root, tree)
